@@ -67,6 +67,7 @@ class Profile:
         self.typedef_of_enumerated = False   # typedefs whose arguments repeat an enumerated instantiation (instantiator checks only)
         self.member_param_values = False     # class instantiation values spelled like a member's own template parameter
         self.fwd_of_defined = False          # forward declaration of a class defined in the same scope (parser checks only)
+        self.dup_values = False              # repeated entries in one instantiation list (instantiator checks only)
         self.same_name_values = False  # instantiation values with one unqualified name in two namespaces (instantiator checks only)
         self.layout_defaults = False   # defaults with inner runs of blanks / line breaks (parser checks only)
         self.__dict__.update(kw)
@@ -219,6 +220,13 @@ class Gen:
                 for a in out:
                     if r.random() < 0.5:
                         a[3] = self.default_text()
+            if tparams and any(x[3] is not None for x in out) and r.random() < 0.3:
+                # a default value that spells a template parameter: as a call, inside a string, as a scoped name.  The
+                # default is TEXT: no stage may rewrite it.
+                t = r.choice(list(tparams))
+                a = r.choice([x for x in out if x[3] is not None])
+                a[3] = r.choice(['%s()' % t, '"%s"' % t, 'Modes::%s' % t, 'traits<%s>::One' % t, "'%s'" % t[0]])
+                self.count('default_spelling_a_template_parameter')
         return [tuple(a) for a in out]
 
     # ---------- templates ----------
@@ -242,6 +250,10 @@ class Gen:
                 seen = set()
                 for _ in range(k):
                     v = self.typename(2)
+                    if self.p.dup_values and vals and r.random() < 0.25:
+                        vals.append(r.choice(vals))          # the same value twice in one list: the product has it twice
+                        self.count('duplicate_value_in_list')
+                        continue
                     if self.p.same_name_values and vals and r.random() < 0.35:
                         # the same unqualified name in another namespace (ns1::A next to ns2::A)
                         b = r.choice(vals)
